@@ -11,6 +11,7 @@ mod bookkeeping;
 mod canister;
 mod client;
 mod gen;
+mod known;
 mod model;
 mod net;
 mod rng;
@@ -75,52 +76,9 @@ pub fn on_fresh_thread<T: Send + 'static>(f: impl FnOnce() -> T + Send + 'static
         .map_err(|_| format!("simulator panicked: {}", canister::take_last_panic()))
 }
 
-fn verif_dir() -> std::path::PathBuf {
-    std::env::var("VERIF_DIR").map(Into::into).unwrap_or_else(|_| "/verif".into())
-}
+use known::verif_dir;
 
-#[derive(Clone, Debug)]
-struct KnownFinding {
-    status: String,
-    property: String,
-    id: String,
-    title: String,
-    kind: String,
-    detail_contains: Option<String>,
-}
-
-fn load_known_findings() -> Vec<KnownFinding> {
-    let p = verif_dir().join("known_findings.json");
-    let Ok(s) = std::fs::read_to_string(&p) else {
-        return vec![];
-    };
-    let v: serde_json::Value = serde_json::from_str(&s).unwrap_or(json!({}));
-    v["findings"]
-        .as_array()
-        .cloned()
-        .unwrap_or_default()
-        .iter()
-        .map(|f| KnownFinding {
-            status: f["status"].as_str().unwrap_or("").to_string(),
-            property: f["property"].as_str().unwrap_or("").to_string(),
-            id: f["id"].as_str().unwrap_or("").to_string(),
-            title: f["title"].as_str().unwrap_or("").to_string(),
-            kind: f["signature"]["kind"].as_str().unwrap_or("").to_string(),
-            detail_contains: f["signature"]["detail_contains"].as_str().map(|s| s.to_string()),
-        })
-        .collect()
-}
-
-fn matches_known(v: &Violation, kf: &[KnownFinding]) -> Option<KnownFinding> {
-    kf.iter()
-        .find(|k| {
-            k.status == "open"
-                && k.property == v.property
-                && k.kind == v.kind
-                && k.detail_contains.as_ref().map(|d| v.detail.contains(d)).unwrap_or(true)
-        })
-        .cloned()
-}
+use known::{load_known_findings, matches_known, KnownFinding};
 
 struct Args {
     cmd: String,
@@ -167,18 +125,25 @@ fn env_seed() -> u64 {
 }
 
 fn budget_for(profile: &str, thorough: bool) -> (u64, u64) {
-    // (number of runs, time box seconds)
-    let (q, t): (u64, u64) = match profile {
-        "C17" => (4000, 60_000),
-        "C05" | "C04" => (500, 6000),
-        "C08" => (500, 6000),
-        "C11" | "C03" => (600, 6000),
-        _ => (700, 8000),
+    // (number of runs, time box seconds). The number of runs is fixed per tier so that the set
+    // of seeds explored does not depend on the speed of the machine; the time box is a safety
+    // net only (quick ~ 1 minute on 16 cores, thorough ~ 10-15 minutes).
+    let q: u64 = match profile {
+        "C01" => 600,
+        "C05" => 1000,
+        "C04" | "C07" => 4000,
+        "C08" => 2500,
+        "C09" => 2000,
+        "C11" => 1500,
+        "C17" => 20000,
+        "C19" => 8000,
+        "C20" => 5000,
+        _ => 6000,
     };
     if thorough {
-        (t, 900)
+        (q * 10, 1500)
     } else {
-        (q, 75)
+        (q, 400)
     }
 }
 
@@ -190,6 +155,7 @@ fn main() {
         "check" => cmd_check(&args),
         "replay" => cmd_replay(&args),
         "one" => cmd_one(&args),
+        "survey" => cmd_survey(&args),
         "selftest-determinism" => cmd_selftest(&args),
         _ => {
             report("usage: btcsim check <Cxx> [--tier quick|thorough] | replay <file> | one <Cxx> <seed> | selftest-determinism");
@@ -262,6 +228,52 @@ fn cmd_one(args: &Args) -> i32 {
     } else {
         0
     }
+}
+
+/// Debug aid: histogram of violation kinds over N seeds (no shrinking, no replay files).
+fn cmd_survey(args: &Args) -> i32 {
+    let profile = args.pos.first().cloned().unwrap_or_default();
+    let n: u64 = args.opts.get("runs").and_then(|s| s.parse().ok()).unwrap_or(200);
+    let thorough = args.opts.contains_key("thorough");
+    let master = env_seed();
+    let next = Arc::new(AtomicU64::new(0));
+    let out: Arc<Mutex<BTreeMap<String, (u64, u64, String)>>> = Arc::new(Mutex::new(BTreeMap::new()));
+    let nontrivial = Arc::new(AtomicU64::new(0));
+    let mut hs = vec![];
+    for _ in 0..16 {
+        let next = next.clone();
+        let out = out.clone();
+        let profile = profile.clone();
+        let nontrivial = nontrivial.clone();
+        hs.push(std::thread::spawn(move || loop {
+            let i = next.fetch_add(1, Ordering::SeqCst);
+            if i >= n {
+                break;
+            }
+            let seed = derive_seed(master, i);
+            let o = run_profile_seed(profile.clone(), seed, thorough);
+            if o.nontrivial {
+                nontrivial.fetch_add(1, Ordering::SeqCst);
+            }
+            let key = match (&o.harness_error, &o.violation) {
+                (Some(e), _) => format!("HARNESS {}", e.chars().take(120).collect::<String>()),
+                (_, Some(v)) => format!("{} {}", v.property, v.kind),
+                _ => "ok".to_string(),
+            };
+            let detail = o.violation.as_ref().map(|v| v.detail.clone()).unwrap_or_default();
+            let mut m = out.lock().unwrap();
+            let e = m.entry(key).or_insert((0, seed, detail));
+            e.0 += 1;
+        }));
+    }
+    for h in hs {
+        let _ = h.join();
+    }
+    report(&format!("survey {profile}: {n} runs, {} non-trivial", nontrivial.load(Ordering::SeqCst)));
+    for (k, (c, seed, detail)) in out.lock().unwrap().iter() {
+        report(&format!("  {c:5}  {k}   e.g. seed {seed}: {}", detail.chars().take(300).collect::<String>()));
+    }
+    0
 }
 
 fn cmd_replay(args: &Args) -> i32 {
@@ -521,6 +533,13 @@ fn cmd_check(args: &Args) -> i32 {
         exit = 1;
     }
 
+    for (id, (title, detail, i, seed)) in &agg.known_examples {
+        if reported_known.insert(id.clone()) {
+            let prop = known.iter().find(|k| &k.id == id).map(|k| k.property.clone()).unwrap_or_default();
+            report(&format!("KNOWN-FINDING: property={prop} {title} [{id}] (run {i}, seed {seed}: {})", detail.chars().take(400).collect::<String>()));
+        }
+    }
+
     // ---- evidence ----
     let wall = started.elapsed().as_secs_f64();
     if let Err(e) = write_evidence(&profile, &tier, master, &agg, wall, n_violations) {
@@ -569,6 +588,7 @@ struct Aggregate {
     foreign_violations: u64,
     desynced_runs: u64,
     known_findings_seen: BTreeSet<String>,
+    known_examples: BTreeMap<String, (String, String, u64, u64)>,
 }
 
 impl Aggregate {
@@ -590,6 +610,10 @@ impl Aggregate {
         self.abstract_transitions.extend(o.stats.abstract_transitions.iter().copied());
         if o.desynced {
             self.desynced_runs += 1;
+        }
+        for (id, (title, detail)) in &o.known_hits {
+            self.known_findings_seen.insert(id.clone());
+            self.known_examples.entry(id.clone()).or_insert((title.clone(), detail.clone(), i, seed));
         }
         if let Some(c) = &o.config {
             *self.networks.entry(c.network.clone()).or_insert(0) += 1;
